@@ -88,7 +88,7 @@ PROPS = {
     },
     "C01": {
         "level": "proof",
-        "units": ["nameparse", "labeliter", "sections", "optiter", "txtdata", "svcparams", "wirehdr"],
+        "units": ["nameparse", "labeliter", "sections", "optiter", "txtdata", "svcparams", "wirehdr", "rtypebitmap"],
         "vx_search": {"bin": "c01_search_small_names", "crate": "replay", "release": True,
                       "what": "16.4 million (octet string of at most 7 octets over 8 parser-relevant octets, offset) pairs and 3 million small messages (section counts 0..=2, body of at most 5 octets) walked twice: ParsedName::parse, "
                               "label iteration both ways, flattening, as_flat_slice, compose_len, equality and Label::iter_slice on the real "
@@ -99,6 +99,10 @@ PROPS = {
                      "pointer casts in-bounds (CBMC pointer checks), values equal the big-endian fields"},
             {"group": "g0", "name": "c01_short_message_rejected", "kind": "complete", "tier": "quick",
              "what": "Message::from_slice accepts exactly slices of >= 12 octets (lengths 0..=12, all contents)"},
+            {"group": "g0", "name": "c01_client_subnet_parse_total_bounded", "kind": "bounded", "tier": "quick", "timeout": 900,
+             "bound": "option payloads of at most 24 octets, all contents (longer payloads are refused on every path: at most 16 address octets, then nothing may remain)",
+             "what": "ClientSubnet::parse (EDNS client subnet, RFC 7871): no panic; a value only for family 1 / 2 with a source prefix that fits the family, "
+                     "exactly ceil(prefix / 8) address octets and no bit beyond the prefix; the value composes back to the payload"},
         ],
         "replays": [
             {"bin": "d34_txt_parse_empty_rdata", "finding": "D34"},
